@@ -24,3 +24,21 @@ PROPS["C01"] = {
         {"name": "bn-w16", "world": "W16", "src": "props/C01_bn.c", "tiers": ("thorough",)},
     ],
 }
+
+PROPS["C02"] = {
+    "level": "model_checking",
+    "technique": "explicit-state enumeration of complete 16-bit prime fields in the 8-bit-digit build (every residue, every pair for small primes, every 2-digit prime in the thorough tier) plus alphabet products on every prime selectable at the shipped sizes, against GMP modular arithmetic",
+    "level_text": "Complete state spaces: for ten structurally different 16-bit primes (quick) and every prime in [257, 65536) (thorough) every residue is driven through every unary operation and algorithm variant "
+                  "(7 inverters, 5 symbol algorithms, square/cube roots, conversions), every ordered pair of residues for p <= 1009 through every add/sub/mul variant and alias pattern, every exponent in [-2p, 2p], every double-width value below p*R through the reductions; "
+                  "at 256/255/381 bits the full product of a boundary alphabet (0, 1, p-1, (p+-1)/2, 2^k, values whose Montgomery form has zero/all-ones digits, small values and their inverses). Results must equal GMP and be canonical (< p in the raw representation).",
+    "level_note": "Trusted: GMP; elements are injected/read through the raw Montgomery representation computed by GMP, so relic's own conversions are not in the oracle path. Not reached: a defect needing a specific 256-bit value outside the alphabet with no 16-bit analogue.",
+    "rule": "cases are (operation group, prime, operands); W8: every residue of each listed prime (complete), every pair for p <= 1009; W64: alphabet product per selectable prime. "
+            "Non-trivial: operand not in {0,1} (unary), both operands non-zero (binary), |exponent| > 1; distinct by 64-bit hash of (group, prime, operands). transitions counts individual operation applications compared with GMP.",
+    "assumptions": ["GMP is the reference for Z/pZ", "W8 RNG callback never yields a zero blinding factor"],
+    "jobs": [
+        {"name": "fp-w8", "world": "W8", "src": "props/C02_fp.c", "share": 0.6},
+        {"name": "fp-w64", "world": "W64", "src": "props/C02_fp.c"},
+        {"name": "fp-w64-255", "world": "W64-255", "src": "props/C02_fp.c", "tiers": ("thorough",)},
+        {"name": "fp-w64-381", "world": "W64-381", "src": "props/C02_fp.c", "tiers": ("thorough",)},
+    ],
+}
